@@ -97,3 +97,182 @@ Definition run_C19_cache (f0 : list (N * N * N * str)) (cs : list (option N * N 
   let f := map (fun '(p, i, e, v) => ((p, i, e), v)) f0 in
   let '(_, os) := fetch_all f (map mk_fcall cs) in
   VL [VB true; VL (map (fun '(r, c) => VL [VB r; VS c]) os)].
+
+(* =================================================================================================================
+   v2 (round 7): the whole client object of sugar/web/_entrez.py - limiter, cache, file names, key switches, failures
+   ================================================================================================================= *)
+
+(* ---- rate: the limit is chosen PER CALL (_entrez.py:27 reads self.api_key at every call; api_key is a public attribute) ---- *)
+Definition rstep (s : st) (kc : bool * call) : st := step (limit (fst kc)) window s (snd kc).
+Definition run2 (cs : list (bool * call)) : st := fold_left rstep cs init.
+(* the popleft branch is taken at this call (deque as long as the limit of THIS call) *)
+Definition pops (s : st) (key : bool) : bool := (limit key <=? length (dq s))%nat.
+
+(* ---- file names: _entrez.py:45  os.path.join(path, seqid + '.' + ext)  (posixpath.join for two arguments) ---- *)
+Definition slash : byte := "/"%byte.
+Definition dot : byte := "."%byte.
+Definition starts_with_slash (s : str) : bool := match s with c :: _ => byte_eqb c slash | [] => false end.
+Fixpoint ends_with_slash (s : str) : bool :=
+  match s with [] => false | c :: r => match r with [] => byte_eqb c slash | _ => ends_with_slash r end end.
+Definition path_join (a b : str) : str :=
+  if starts_with_slash b then b
+  else if (Nat.eqb (length a) 0) || ends_with_slash a then a ++ b else a ++ slash :: b.
+Definition basename (id ext : str) : str := id ++ dot :: ext.
+Definition fname (path id ext : str) : str := path_join path (basename id ext).
+Definition has_byte (c : byte) (s : str) : bool := existsb (byte_eqb c) s.
+
+(* ---- file system keyed by the file name string (faithful while names are normalised: no '/' in id and ext) ---- *)
+Definition fs2 := list (str * str).
+Fixpoint fs2_get (n : str) (f : fs2) : option str :=
+  match f with [] => None | (n', v) :: r => if str_eqb n' n then Some v else fs2_get n r end.
+Definition fs2_set (n v : str) (f : fs2) : fs2 := (n, v) :: f.
+
+(* what the HTTP layer does with a request: an answer text, or an exception (requests.get raises / raise_for_status raises) *)
+Inductive answer := Ans (payload : str) | Fail (http : bool).
+Record attempt := { a_eps : Z; a_dur : Z; a_ans : answer }.
+Definition attempt0 : attempt := {| a_eps := 0; a_dur := 0; a_ans := Ans [] |}.
+
+(* one public call. o_kind: 0 fetch_seq, 1 get_seq, 2 fetch_basket, 3 get_basket. o_gap: idle time before the call.
+   o_key: bool(client.api_key) at this call. o_self: client.path. o_path: the path= option. o_env: what the environment does with the 1st, 2nd, ... request of this call. *)
+Record op := { o_kind : N; o_gap : Z; o_key : bool; o_self : option str; o_path : option str; o_ids : list str;
+               o_rettype : str; o_ext : option str; o_ow : bool; o_env : list attempt }.
+
+(* :39  path = path or self.path   (truthiness: path='' falls back to self.path, which may itself be '' or None) *)
+Definition eff_path (o : op) : option str :=
+  match o_path o with Some (c :: r) => Some (c :: r) | _ => o_self o end.
+(* :40-41  ext None -> rettype ('' stays '') *)
+Definition eff_ext (o : op) : str := match o_ext o with Some e => e | None => o_rettype o end.
+(* :44-47  file name iff path is not None (path '' gives a name relative to the working directory) *)
+Definition cache_name (o : op) (id : str) : option str := option_map (fun p => fname p id (eff_ext o)) (eff_path o).
+(* :48-49 *)
+Definition need_request (f : fs2) (fn : option str) (ow : bool) : bool :=
+  match fn with
+  | None => true
+  | Some n => match fs2_get n f with None => true | Some v => Nat.eqb (length v) 0 || ow end
+  end.
+
+(* client state: limiter state, idle time since the last request returned, ghost list of the limiter calls made (newest first),
+   files *)
+Record cl := { c_rate : st; c_pend : Z; c_calls : list (bool * call); c_fs : fs2 }.
+Definition cl_init (f : fs2) : cl := {| c_rate := init; c_pend := 0; c_calls := []; c_fs := f |}.
+
+Inductive res := RName (n : str) | RHandle (content : str) | RExc (http : bool).
+(* what one id occurrence did: request issued?, its start time, time slept, sent with key?, file name concerned, result *)
+Record ev := { e_req : bool; e_start : Z; e_slept : Z; e_key : bool; e_name : option str; e_ans : answer; e_ow : bool; e_res : res }.
+
+(* fetch_seq :35-62 for one id *)
+Definition fetch_one (s : cl) (o : op) (id : str) (a : attempt) : cl * ev :=
+  let fn := cache_name o id in
+  if need_request (c_fs s) fn (o_ow o) then
+    let c := {| gap := c_pend s; eps := a_eps a; dur := a_dur a |} in
+    let r := step (limit (o_key o)) window (c_rate s) c in       (* :54 wait_before_request, :55 requests.get *)
+    let start := hd 0 (hist r) in
+    let sl := hd 0 (slept r) in
+    let mk f' x := ({| c_rate := r; c_pend := 0; c_calls := (o_key o, c) :: c_calls s; c_fs := f' |},
+                    {| e_req := true; e_start := start; e_slept := sl; e_key := o_key o; e_name := fn; e_ans := a_ans a;
+                       e_ow := o_ow o; e_res := x |}) in
+    match a_ans a with
+    | Fail h => mk (c_fs s) (RExc h)                            (* :55/:56 raise: start recorded, nothing written *)
+    | Ans pl => match fn with
+                | None => mk (c_fs s) (RHandle pl)              (* :58 *)
+                | Some n => mk (fs2_set n pl (c_fs s)) (RName n)   (* :60-62 *)
+                end
+    end
+  else (s, {| e_req := false; e_start := 0; e_slept := 0; e_key := o_key o; e_name := fn; e_ans := a_ans a; e_ow := o_ow o;
+              e_res := match fn with Some n => RName n | None => RHandle [] end |}).
+
+Definition is_exc (r : res) : bool := match r with RExc _ => true | _ => false end.
+
+(* fetch_basket :64-65: a list comprehension - ids in order, duplicates not merged, the first exception ends it *)
+Fixpoint fetch_list (s : cl) (o : op) (ids : list str) (env : list attempt) : cl * list ev :=
+  match ids with
+  | [] => (s, [])
+  | id :: r =>
+      let a := hd attempt0 env in
+      let '(s1, e) := fetch_one s o id a in
+      if is_exc (e_res e) then (s1, [e])
+      else let '(s2, es) := fetch_list s1 o r (if e_req e then tl env else env) in (s2, e :: es)
+  end.
+
+Definition op_ids (o : op) : list str :=
+  if (N.eqb (o_kind o) 0 || N.eqb (o_kind o) 1)%bool then firstn 1 (o_ids o) else o_ids o.
+Definition op_is_get (o : op) : bool := (N.eqb (o_kind o) 1 || N.eqb (o_kind o) 3)%bool.
+
+Definition do_op (s : cl) (o : op) : cl * list ev :=
+  let s0 := {| c_rate := c_rate s; c_pend := c_pend s + o_gap o; c_calls := c_calls s; c_fs := c_fs s |} in
+  fetch_list s0 o (op_ids o) (o_env o).
+
+Fixpoint do_ops (s : cl) (os : list op) : cl * list (list ev) :=
+  match os with
+  | [] => (s, [])
+  | o :: r => let '(s1, es) := do_op s o in let '(s2, ess) := do_ops s1 r in (s2, es :: ess)
+  end.
+
+(* the text the reader is given for a result: the file's content (get_seq :71 read(fname)), or the in-memory text *)
+Definition delivered (f : fs2) (r : res) : option str :=
+  match r with RName n => fs2_get n f | RHandle c => Some c | RExc _ => None end.
+
+(* get_seq / get_basket :67-77 over an abstract reader: read : text -> parsed records, or failure *)
+Section Get.
+Variable R : Type.
+Variable read : str -> option (list R).
+(* get_basket: all fetches first, then the files are read in order and the records concatenated; the first failing read raises *)
+Fixpoint read_all (f : fs2) (rs : list res) : option (list R) :=
+  match rs with
+  | [] => Some []
+  | r :: rest =>
+      match delivered f r with
+      | None => None
+      | Some c => match read c, read_all f rest with Some x, Some y => Some (x ++ y) | _, _ => None end
+      end
+  end.
+(* get_seq: read(fname)[0] *)
+Definition get_seq_result (f : fs2) (r : res) : option R :=
+  match delivered f r with Some c => match read c with Some (x :: _) => Some x | _ => None end | None => None end.
+End Get.
+
+(* ---- domain: time steps non-negative; ids / extensions without '/' (file names stay inside the cache directory) ---- *)
+Definition attempt_okb (a : attempt) : bool := (0 <=? a_eps a) && (0 <=? a_dur a).
+Definition op_okb (o : op) : bool :=
+  (0 <=? o_gap o) && forallb attempt_okb (o_env o) && forallb (fun i => negb (has_byte slash i)) (o_ids o)
+  && negb (has_byte slash (eff_ext o)).
+
+(* ---- harness entry point ---- *)
+Definition mk_attempt (t : Z * Z * option str * bool) : attempt :=
+  let '(e, d, a, h) := t in {| a_eps := e; a_dur := d; a_ans := match a with Some pl => Ans pl | None => Fail h end |}.
+Definition mk_op (t : N * Z * bool * option str * option str * list str * str * option str * bool * list (Z * Z * option str * bool)) : op :=
+  let '(k, g, key, sp, p, ids, rt, ex, ow, env) := t in
+  {| o_kind := k; o_gap := g; o_key := key; o_self := sp; o_path := p; o_ids := ids; o_rettype := rt; o_ext := ex; o_ow := ow;
+     o_env := map mk_attempt env |}.
+Definition exc_val (h : bool) : val := VE (if h then bs "HTTPError"%bs else bs "ConnectionError"%bs).
+(* concrete reader of the entry point: the records of a text are the text itself; an empty text cannot be read *)
+Definition read_id (c : str) : option (list str) := match c with [] => None | _ => Some [c] end.
+Definition res_val (r : res) : val :=
+  match r with RName n => VL [VS (bs "name"%bs); VS n] | RHandle c => VL [VS (bs "handle"%bs); VS c] | RExc h => exc_val h end.
+Definition op_result (f : fs2) (o : op) (es : list ev) : val :=
+  let rs := map e_res es in
+  match find is_exc rs with
+  | Some (RExc h) => exc_val h
+  | _ =>
+    if op_is_get o then
+      if N.eqb (o_kind o) 1 then
+        match rs with r :: _ => match get_seq_result str read_id f r with Some x => VS x | None => VE (bs "read"%bs) end
+                    | [] => VE (bs "IndexError"%bs) end
+      else match read_all str read_id f rs with Some l => VL (map VS l) | None => VE (bs "read"%bs) end
+    else if N.eqb (o_kind o) 0 then match rs with r :: _ => res_val r | [] => VE (bs "IndexError"%bs) end
+    else VL (map res_val rs)
+  end.
+Definition ev_val (f : fs2) (e : ev) : val :=
+  VL [VB (e_req e); VI (e_start e); VI (e_slept e); VB (e_key e);
+      match e_name e with Some n => VOpt VS (fs2_get n f) | None => VNone end].
+Fixpoint client_vals (s : cl) (os : list op) : list val :=
+  match os with
+  | [] => []
+  | o :: r => let '(s1, es) := do_op s o in VL [VL (map (ev_val (c_fs s1)) es); op_result (c_fs s1) o es] :: client_vals s1 r
+  end.
+Definition run_C19_client (f0 : list (str * str))
+    (os : list (N * Z * bool * option str * option str * list str * str * option str * bool * list (Z * Z * option str * bool))) : val :=
+  let ops := map mk_op os in
+  VL [VB (forallb op_okb ops); VL (client_vals (cl_init f0) ops)].
+(* the file-name function alone *)
+Definition run_C19_name (path id ext : str) : val := VL [VB true; VS (fname path id ext)].
